@@ -52,7 +52,7 @@ class _G:
         self.nreg = 0
         self.nname = 0
         self.nseltype = 0
-        self.narrowed = 0         # >0 while inside a TYPE IS branch that makes ``obj`` itself non-polymorphic
+        self.narrowed = 0         # >0 while inside a TYPE IS / CLASS IS branch (``obj`` has a narrower type there)
 
     # ---- pragmas ----------------------------------------------------------
     def plain_pragma(self):
@@ -138,13 +138,15 @@ class _G:
         guards = ['type is (t_base)', 'class is (t_ext)', 'type is (t_ext)', 'class is (t_base)']
         first = d(st.integers(0, len(guards) - 1))
         guards = (guards[first:] + guards[:first])[:d(st.integers(1, 3))]
-        selector = d(st.sampled_from(['obj', 'obj', 'zo => obj']))
+        selector = 'obj'          # the frontend does not implement an associate name (``zo => obj``) here
         cases = []
         for gd in guards:
-            narrow = selector == 'obj' and gd.startswith('type is')
-            self.narrowed += narrow
+            # inside a guarded branch ``obj`` has the guard's type: a nested SELECT TYPE (obj) with the same guard
+            # pool would be invalid there; nesting happens in CLASS DEFAULT branches (and through other constructs
+            # in them) only
+            self.narrowed += 1
             cases.append([gd, self.body(depth + 1, 1, 2)])
-            self.narrowed -= narrow
+            self.narrowed -= 1
         dflt = self.body(depth + 1, 1, 2) if d(st.booleans()) else None
         name = None
         if d(st.integers(0, 7)) == 0:
